@@ -29,6 +29,15 @@ def validator_set(prog, fmt='fastq'):
     pre = '%s::Reader::' % fmt
     vals = [b for b in prog.bodies.values() if b.key.startswith(pre) and b.promoted_of is None and any(
         s.k == 'assign' and s.rv.k == 'agg' and s.rv.j.get('variant') == 'UnequalLengths' for blk in b.blocks for s in blk.stmts)]
+    # constructed inside a closure (`.map_err(|(seq, qual)| Error::UnequalLengths { .. })`): the function the closure belongs to
+    parents = []
+    for b in vals:
+        if '{closure' in b.key:
+            par = [q for q in prog.bodies.values() if q.key == b.key.split('::{closure')[0] and q.promoted_of is None]
+            parents += par or [b]
+        else:
+            parents.append(b)
+    vals = list({id(b): b for b in parents}.values())
     if len(vals) != 1:
         return None
     memo = {}
@@ -104,6 +113,9 @@ class Interp:
         self.advance = self._find_advance()
         self.locate = self._find_locate()
         self.imprecise = set()
+        if not self.advance or not self.locate:
+            self.imprecise.add('the roles of the reader functions were not recognised (advance over a record: %s; search reporting "a record is located" as Result<bool>: %s)' % (
+                sorted(self.advance) or 'none', sorted(self.locate) or 'none'))
         if self.roles_gap:
             self.imprecise.add('the suspendable search %s is called by a reading operation directly, not through a function returning Result<bool> ("a record is located")' % ', '.join(sorted(set(self.roles_gap))))
         self._closure_bodies = None
@@ -151,11 +163,16 @@ class Interp:
                         if not selfop or not other:
                             continue
                         fields = set()
+                        diff = False
                         for r in data_deps(b, other[0]):
                             if r[0] == 'arg' and r[1] == 1 and r[-1]:
                                 fields.add(tuple(q[1] for q in r[-1]))
+                            if r[0] == 'bin' and getattr(r[1], 'rv', None) is not None and r[1].rv.j.get('op', '').startswith('Sub'):
+                                diff = True
                         fields = set(f for f in fields if f[0] in ('buf_pos', 'search_pos'))
-                        if len(fields) >= 2:
+                        # (a difference of offsets one of which the flow-insensitive provenance resolves to a later store of the
+                        # same field - `let n = next - cur.start; cur.start = next;` - shows only one field)
+                        if len(fields) >= 2 or (len(fields) >= 1 and diff):
                             out.append(b)
                             self.advance_stmts.add(id(s))
         return set(x.path for x in out)
@@ -1279,7 +1296,8 @@ class Interp:
         for o in s.rv.ops:
             calls = [x[1].callee for x in data_deps(body, o, du) if x[0] == 'call' and x[1].callee]
             sides.append((any(c.is_('buffer_redux::BufReader::capacity') for c in calls),
-                          any(c.path.endswith('slice::len') or c.name == 'len' for c in calls) and any(rules_err.is_buffer_call(self.prog, c) for c in calls)))
+                          (any(c.path.endswith('slice::len') or c.name == 'len' for c in calls) and any(rules_err.is_buffer_call(self.prog, c) for c in calls))
+                          or any(c.is_('buffer_redux::BufReader::buf_len') for c in calls)))
         if len(sides) == 2 and ((sides[0] == (False, True) and sides[1] == (True, False)) or (sides[0] == (True, False) and sides[1] == (False, True))):
             first_is_len = sides[0][1]
             op = s.rv.j['op']
